@@ -1616,6 +1616,34 @@ theorem own_resolution_isolated (rt ty : Nat) (evs : List Intern.RegEv) :
     resolveOwn (ownTable evs) rt ty = resolveOwn (ownTable (alone rt evs)) rt ty :=
   own_resolution_alone rt ty evs
 
+/-- **T8 (b), by the generated name sources.** If every arm of
+`rust_type_to_roto_type` that produces a name takes it from the runtime's own
+list, then what a runtime resolves a Rust type to is what it resolves it to
+ALONE in a fresh process, whatever other runtimes registered and in whatever order. -/
+theorem names_per_runtime_isolated (l : List NameSource) (h : namesPerRuntime l = true)
+    (rt ty : Nat) (evs : List Intern.RegEv) :
+    ∀ src ∈ l, resolveBy src evs rt ty = resolveBy src (alone rt evs) rt ty := by
+  intro src hsrc
+  unfold namesPerRuntime at h
+  simp only [Bool.and_eq_true, List.all_eq_true] at h
+  have hne := h.1 src hsrc
+  cases src with
+  | ownList => exact own_resolution_alone rt ty evs
+  | foreign => simp at hne
+  | structural => rfl
+
+/-- a `foreign` source is not isolated: the witness of `name_cache_leaks_between_runtimes` -/
+theorem foreign_name_source_not_isolated :
+    let evs := [Intern.RegEv.declare 0 5 10, .declare 1 5 11]
+    resolveBy .foreign evs 1 5 = some 10 ∧ resolveBy .foreign (alone 1 evs) 1 5 = some 11 := by
+  decide
+
+/-- **T8 (b) on the current tree**: both arms of `rust_type_to_roto_type` that
+name a registered type (`Leaf`, `Val`) ask `runtime.get_runtime_type`. -/
+theorem names_resolved_per_runtime_on_tree : namesPerRuntime Gen.C12Globals.nameSources = true := by decide
+
+example : namesPerRuntime [.ownList, .structural, .foreign] = false ∧ namesPerRuntime [.structural] = false := by decide
+
 /-- **T8 (b) on the current tree**: the values behind the crate's process-global
 locks contain no cell (nothing a registration or compilation could set in an
 entry after it was inserted): what the registry hands out is a function of the
